@@ -50,7 +50,7 @@ def check(res, tier, seed):
                 res.violation("remote-e2e:" + p_, "remote definition %s: invoking the function field at path %r ran %s on the peer, expected exactly the peer's method at path %r" % (
                     r["def"], p_, ("nothing (the call failed:%s)" % ran.split("error:", 1)[1]) if ran.startswith(" error:") else ("the method(s) at %r" % ran) if ran else "nothing", p_), dict(kind="remote", case=r))
     expected = {"valid1": "", "valid2": "", "empty": "", "nofuncs": "", "chan-map-ptr": "", "sysremote": "", "epremote": "",
-                "embedded": "", "widerctx": "", "anyfirst": "invalid arguments",
+                "embedded": "", "widerctx": "", "names": "", "unexp-ret": "invalid return", "unexp-args": "invalid arguments", "anyfirst": "invalid arguments",
                 "badret0": "invalid return", "badret3": "invalid return", "badret-noerr": "invalid return", "badret-noerr1": "invalid return",
                 "badargs0": "invalid arguments", "badargs-noctx": "invalid arguments", "twobad": "invalid arguments",
                 "twobad2": "invalid return", "bothbad": "invalid return"}
